@@ -2,6 +2,7 @@ package mon
 
 import (
 	"bytes"
+	"strconv"
 
 	asv1 "github.com/pingcap/advanced-statefulset/client/apis/apps/v1"
 	"github.com/pingcap/advanced-statefulset/pkg/controller/statefulset"
@@ -61,8 +62,11 @@ func CheckC08(v *View, st Stats) []Violation {
 			out = append(out, viol("C08", "created-revision-does-not-mirror-template", "%s records a template different from the set's", c))
 		}
 		for _, m := range mirrorsBefore {
-			hm, ho := m.Labels[k8s.ControllerRevisionHashLabel], o.Labels[k8s.ControllerRevisionHashLabel]
-			if bytes.Equal(m.Data.Raw, o.Data.Raw) && (hm == "" || ho == "" || hm == ho) {
+			// revisions are equal when their recorded data is byte-equal; the hash labels only matter in
+			// the (practically unreachable) case that both parse as int32 and differ, as upstream has it
+			hm, e1 := strconv.ParseInt(m.Labels[k8s.ControllerRevisionHashLabel], 10, 32)
+			ho, e2 := strconv.ParseInt(o.Labels[k8s.ControllerRevisionHashLabel], 10, 32)
+			if bytes.Equal(m.Data.Raw, o.Data.Raw) && !(e1 == nil && e2 == nil && hm != ho) {
 				out = append(out, viol("C08", "revision-added-for-known-template", "%s although revision %s already records exactly this template", c, m.Name))
 			}
 		}
